@@ -99,6 +99,30 @@ pub fn check_pos(ctx: &mut Ctx, mp: &MPos, b: &Board) {
     if matches!(mp.halfmove, 99 | 100 | 149 | 150) {
         ctx.feature(&format!("clock_{}", mp.halfmove));
     }
+    if !legal.is_empty() {
+        // positions whose legal moves all belong to one class (the short-circuit probe has one code
+        // path per class)
+        let class = |m: &MMove| -> &'static str {
+            match m.kind {
+                MKind::Double => "double_push",
+                MKind::EnPassant => "en_passant",
+                MKind::CastleK | MKind::CastleQ => "castling",
+                MKind::PromoN | MKind::PromoB | MKind::PromoR | MKind::PromoQ => "promotion",
+                MKind::Simple => match kind(m.man) {
+                    b'P' => if mp.is_capture(m) { "pawn_capture" } else { "pawn_push" },
+                    b'K' => "king",
+                    b'N' => "knight",
+                    b'B' => "bishop",
+                    b'R' => "rook",
+                    _ => "queen",
+                },
+            }
+        };
+        let c0 = class(&legal[0]);
+        if legal.iter().all(|m| class(m) == c0) {
+            ctx.feature(&format!("all_legal_moves_are_{}", c0));
+        }
+    }
     if legal.len() == 1 && legal[0].kind == MKind::EnPassant {
         ctx.feature("only_move_is_en_passant");
     }
